@@ -51,7 +51,7 @@ func genCase(t *rapid.T) Case {
 	}
 	c := Case{Ctor: rapid.SampledFrom([]string{"zero", "new", "size", "size", "size"}).Draw(t, "ctor")}
 	if c.Ctor == "size" {
-		c.N = rapid.OneOf(rapid.IntRange(0, 17), rapid.IntRange(0, 17), rapid.SampledFrom([]int{31, 32, 33, 63, 64, 65, 100, 127, 128, 129, 255, 256, 257, 511, 512, 513})).Draw(t, "n")
+		c.N = rapid.OneOf(rapid.IntRange(0, 17), rapid.IntRange(0, 17), rapid.SampledFrom([]int{31, 32, 33, 63, 64, 65, 100, 127, 128, 129, 255, 256, 257, 511, 512, 513, 1024, 1025, 1500, 2049})).Draw(t, "n") // also big, mostly empty buffers
 	}
 	// About half of the cases keep the original Queue[int]; the rest is spread
 	// over the other element kinds.
